@@ -114,22 +114,28 @@ def scanNum (s : Bytes) : Bytes × Bytes :=
   | (d1, 46 :: r2) => let (d2, r3) := spanDigits r2; (d1 ++ 46 :: d2, r3)
   | (d1, r1) => (d1, r1)
 
+/-- length of the first part of a NameTest: `*` or an NCName -/
+def firstLen (s : Bytes) : Option Nat :=
+  match s with
+  | 42 :: _ => some 1
+  | _ => ncname s
+
+/-- the rest of a NameTest after its first part of `len` bytes: `::` (axis) rejects, `:*` / `:NCName` extend it -/
+def nameTestAfter (s : Bytes) (len : Nat) : Option (Bytes × Bytes) :=
+  match s.drop len with
+  | 58 :: 58 :: _ => none
+  | 58 :: 42 :: r => some (s.take (len + 2), r)
+  | 58 :: r =>
+    match ncname r with
+    | none => none
+    | some n2 => some (s.take (len + 1 + n2), r.drop n2)
+  | after => some (s.take len, after)
+
 /-- NameTest at the head of `s` (the final `else` branch of the lexer): token text and rest -/
 def nameTest (s : Bytes) : Option (Bytes × Bytes) :=
-  let len? : Option Nat := match s with
-    | 42 :: _ => some 1
-    | _ => ncname s
-  match len? with
+  match firstLen s with
   | none => none
-  | some len =>
-    match s.drop len with
-    | 58 :: 58 :: _ => none
-    | 58 :: 42 :: r => some (s.take (len + 2), r)
-    | 58 :: r =>
-      match ncname r with
-      | none => none
-      | some n2 => some (s.take (len + 1 + n2), r.drop n2)
-    | after => some (s.take len, after)
+  | some len => nameTestAfter s len
 
 /-- one token at the head of `s` (no leading whitespace); `prevOk` = a NameTest may start here, i.e. there is no
     previous token or it is one of `[` `=` `/` (the other members of the C condition are rejected tokens). -/
